@@ -26,7 +26,7 @@ RULE = ('cases: seeded histories of 40 ops (add / move / move_to / remove / move
 ASSUMPTIONS = ['only axes of positive extent are claimed (zero-extent axes are read back but not judged)',
                'extents are 0 or >= 1', 'float landing is exact on multiples of 1/8 below 2^40; elsewhere within 4*(ulp(|old|+|delta|)+ulp(extent)): float % rounds once more when it folds a negative remainder']
 FLOORS = {'quick': {'moves_wrap': 4000, 'moves_clamp': 4000, 'multi_lap_wraps': 800, 'saturated_low': 500, 'saturated_high': 500,
-                    'move_to_accepted': 2000, 'move_to_rejected': 2000, 'boundary_landings': 1500, 'removals': 1000, 'wild_ops': 500,
+                    'move_to_accepted': 2000, 'move_to_rejected': 2000, 'boundary_landings': 1500, 'removals': 1000, 'deprecated_alias_calls': 300, 'wild_ops': 500,
                     'exact_ops': 8500, 'contract:SpaceWorld.containment': 30000, 'world_space': 200, 'world_discrete': 200, 'world_line': 80, 'world_grid': 80,
                     'reach:Environments.SpaceWorld.move': 8000, 'reach:Environments.SpaceWorld.move_to': 4000},
           'thorough': {'moves_wrap': 300000, 'moves_clamp': 300000, 'move_to_rejected': 150000}}
@@ -174,7 +174,17 @@ def case_history(ctx, case):
                     raise CaseViolation(f'out-of-bounds placement {pos} accepted', world=(kind, ext, wrap))
                 ctx.count('add_rejected')
             else:
-                env.add_agent(a, *pos)
+                if rng.random() < 0.08:
+                    # the deprecated spelling: same behaviour, default placement at the origin
+                    import warnings
+                    with warnings.catch_warnings():
+                        warnings.simplefilter('ignore')
+                        env.addAgent(a)
+                    pos = [0, 0, 0]
+                    ctx.count('deprecated_alias_calls')
+                    trace[-1] = ('addAgent', a.id)
+                else:
+                    env.add_agent(a, *pos)
                 ref[a.id] = [Fraction(pos[k]) if k in pos_axes else None for k in range(3)]
                 ctx.count('add_accepted')
                 if any(pos[k] in (0, hi(k)) for k in pos_axes):
@@ -236,7 +246,14 @@ def case_history(ctx, case):
             verify(a, f'after move_to{tuple(pos)}')
         else:
             trace.append(('remove', a.id))
-            env.remove_agent(a.id)
+            if rng.random() < 0.1:
+                import warnings
+                with warnings.catch_warnings():
+                    warnings.simplefilter('ignore')
+                    env.removeAgent(a.id)          # deprecated spelling
+                ctx.count('deprecated_alias_calls')
+            else:
+                env.remove_agent(a.id)
             del ref[a.id]
             ctx.count('removals')
             verify(a, 'after remove')
